@@ -561,7 +561,7 @@ static bool runIter(uint64_t seed, uint64_t idx, int onlyTd, int onlyProto)
       w->th = std::thread([&, w, own, s0]() mutable {
         vf::Rng r(s0);
         int after = int(r.range(0, 6));
-        int listens = 0;
+        int listens = 0, connects = 0;
         for (;;)
         {
           // destroying kinds: co-owners must let go once teardown began (one of these releases is the
@@ -572,6 +572,9 @@ static bool runIter(uint64_t seed, uint64_t idx, int onlyTd, int onlyProto)
           if (begun && (destroying || stopsReturned.load() > 0)) { if (after-- <= 0) break; }
           int k = int(r.below(10));
           if (k >= 5 && k < 7 && ++listens > 24 && !begun) k = 9; // bounded number of listening sockets
+          // bounded number of connects: every one of them costs one (possibly slow) user onClose inside
+          // stop(); an unbounded stream of them makes stop() long by the harness's own doing
+          if (k == 7 && ++connects > 24) k = 9;
           w->t0 = vf::nowNs();
           try
           {
